@@ -76,6 +76,43 @@ static void run_root(Root& root, int const* data, idx N, std::vector<idx> const&
 	mc::R.note(rootname + ": completed_depth=" + std::to_string(st.completed_depth) + " states=" + std::to_string(st.states) + " transitions=" + std::to_string(st.transitions) + (st.capped ? " CAPPED" : ""));
 }
 
+// ---- reextent on re-based arrays: ALL ordered pairs (old, new) of index extensions from a menu; index-space intersection model
+template<int D> static void reextent_grid() {
+	std::vector<std::pair<idx, idx>> menu1 = {{0, 0}, {0, 2}, {-1, 1}, {-1, 2}, {2, 4}, {1, 4}, {0, 3}};   // [first,last) per dimension
+	std::vector<std::vector<std::pair<idx, idx>>> exts;
+	if(D == 1) { for(auto a : menu1) { exts.push_back({a}); } }
+	else { std::vector<std::pair<idx, idx>> m2 = {{0, 2}, {-1, 1}, {2, 4}, {1, 4}, {0, 0}}; for(auto a : m2) { for(auto b : m2) { exts.push_back({a, b}); } } }
+	long n = 0, nt = 0;
+	auto mk = [](std::vector<std::pair<idx, idx>> const& e) { std::vector<idx> f, s; for(auto p : e) { f.push_back(p.first); s.push_back(p.second - p.first); } return vo::make_extensions<D>(f, s); };
+	auto str = [](std::vector<std::pair<idx, idx>> const& e) { std::string r; for(auto p : e) { r += "[" + std::to_string(p.first) + "," + std::to_string(p.second) + ")"; } return r; };
+	for(auto const& o : exts) { for(auto const& nw : exts) { for(int withv = 0; withv < 2; ++withv) {
+		++n;
+		mc::cur_set("reextent-rebased", "reextent:" + str(o) + "->" + str(nw));
+		multi::array<int, D> a(mk(o));
+		// value = code of the index tuple
+		auto code = [](idx i, idx j) { return static_cast<int>(100*(i + 5) + (j + 5)); };
+		if constexpr(D == 1) { for(idx i = o[0].first; i < o[0].second; ++i) { a[i] = code(i, 0); } }
+		else { if((o[0].second - o[0].first)*(o[1].second - o[1].first) > 0) { for(idx i = o[0].first; i < o[0].second; ++i) { for(idx j = o[1].first; j < o[1].second; ++j) { a[i][j] = code(i, j); } } } }
+		bool oldempty = a.num_elements() == 0;
+		if(withv) { a.reextent(mk(nw), -7); } else { a.reextent(mk(nw)); }
+		std::string why;
+		idx cnt = 1; for(auto p : nw) { cnt *= (p.second - p.first); }
+		if(a.num_elements() != cnt) { why = "num_elements"; }
+		else if(cnt > 0) {
+			if(!(a.extensions() == mk(nw))) { why = "extensions"; }
+			else {
+				++nt;
+				auto inold = [&](idx i, idx j) { if(oldempty) { return false; } bool in = i >= o[0].first && i < o[0].second; if(D == 2) { in = in && j >= o[1].first && j < o[1].second; } return in; };
+				if constexpr(D == 1) { for(idx i = nw[0].first; i < nw[0].second && why.empty(); ++i) { if(inold(i, 0)) { if(a[i] != code(i, 0)) { why = "common-element-lost at " + std::to_string(i); } } else if(withv && a[i] != -7) { why = "new-element-not-filled at " + std::to_string(i); } } }
+				else { for(idx i = nw[0].first; i < nw[0].second && why.empty(); ++i) { for(idx j = nw[1].first; j < nw[1].second && why.empty(); ++j) { if(inold(i, j)) { if(a[i][j] != code(i, j)) { why = "common-element-lost at (" + std::to_string(i) + "," + std::to_string(j) + ")"; } } else if(withv && a[i][j] != -7) { why = "new-element-not-filled"; } } } }
+			}
+		}
+		if(!why.empty()) { mc::R.violation("D" + std::to_string(D) + "|reextent-rebased|" + why.substr(0, why.find(" at")), mc::J().s("harness", "basemc").s("replay", "reextent:" + str(o) + "->" + str(nw)).s("old_extensions", str(o)).s("new_extensions", str(nw)).s("fill", withv ? "-7" : "none").s("detail", why).str()); }
+	} } }
+	mc::R.add("reextent_pairs", n); mc::R.add("transitions", n); mc::R.add("states", static_cast<long long>(exts.size()));
+	mc::R.note("reextent on re-based arrays D=" + std::to_string(D) + ": " + std::to_string(exts.size()) + " index extensions, all " + std::to_string(n) + " (old,new,fill) triples, " + std::to_string(nt) + " non-empty results");
+}
+
 struct RootSpec { std::vector<idx> sizes, firsts; bool thorough_only; };
 static std::vector<RootSpec> roots() {
 	std::vector<RootSpec> r;
@@ -112,6 +149,9 @@ int main(int argc, char** argv) {
 	std::string only = args.get("replay", "");
 	auto body = [&](std::set<std::string> const& skip) {
 		long i = 0;
+#ifdef ONLY_RANK
+		if constexpr(ONLY_RANK <= 2) { if(shard == 0) { reextent_grid<ONLY_RANK>(); } }
+#endif
 		for(auto const& rs : roots()) {
 			if(rs.thorough_only && !thorough) { continue; }
 #ifdef ONLY_RANK
